@@ -419,6 +419,21 @@ pub fn open_root(i: usize) -> tracing::Span {
     }
 }
 
+/// two event callsites with an explicit parent span (their scope starts at that span, not at the
+/// thread's current one)
+pub fn emit_of(k: usize, parent: &tracing::Span) {
+    match k {
+        0 => tracing::event!(name: "x_error_a", target: "a", parent: parent, tracing::Level::ERROR, "m"),
+        _ => tracing::event!(name: "x_info_b", target: "b", parent: parent, tracing::Level::INFO, "m"),
+    }
+}
+pub fn of_meta(k: usize) -> Meta {
+    match k {
+        0 => Meta { name: "x_error_a", level: 1, target: "a", is_span: false },
+        _ => Meta { name: "x_info_b", level: 3, target: "b", is_span: false },
+    }
+}
+
 pub fn callsites() -> Vec<Cs> {
     let m = |name, level, target, is_span| Meta { name, level, target, is_span };
     vec![
